@@ -609,6 +609,20 @@ class Fn(object):
                     return True
         return False
 
+    def natural_loop(self, hdr):
+        """blocks of the natural loop(s) with header block `hdr` (back edges t->hdr with hdr dominating t)."""
+        body = set([hdr])
+        st = [p for p, _ in self.blocks[hdr].preds if self.dominates(hdr, p)]
+        while st:
+            b = st.pop()
+            if b in body:
+                continue
+            body.add(b)
+            for p, _ in self.blocks[b].preds:
+                if p not in body:
+                    st.append(p)
+        return body
+
     def var_stores(self, name):
         return [(el, rhs) for el, lhs, op, rhs in self.stores() if is_e(strip(lhs), "var") and strip(lhs)[1] == name]
 
